@@ -359,6 +359,9 @@ func (s *SencBox) EncodeSWNoHdr(sw bits.SliceWriter) error {
 		return sw.AccError()
 	}
 	perSampleIVSize := s.GetPerSampleIVSize()
+	if perSampleIVSize == 0 && s.Flags&UseSubSampleEncryption == 0 {
+		return sw.AccError() // No per-sample data, so nothing to write regardless of sample count
+	}
 	for i := 0; i < int(s.SampleCount); i++ {
 		if perSampleIVSize > 0 {
 			sw.WriteBytes(s.IVs[i])
